@@ -97,6 +97,50 @@ pub fn vec_reverse_lonlat(v: &mut Vec<LonLat>)
     ensures final(v)@ == old(v)@.reverse(),
 { v.reverse() }
 
+// cell.rs::lonlat_to_estimate (float: nearest face, projection, quintant, ij_to_s): NOT under contract.
+// ASSUMED: whatever it returns carries the requested resolution, a face id < 12 and a segment < 5
+// (origin.id of find_nearest_origin; quintant_to_segment's `% 5`).  Its own integer precondition
+// (curve depth resolution - 1 in 1..=28 for ij_to_s' shifts) is an obligation at the call sites.
+#[verifier::external_body]
+pub fn lonlat_to_estimate(lonlat: LonLat, resolution: i32) -> (res: Result<A5Cell, String>)
+    requires 0 <= resolution <= 29,
+    ensures res is Ok ==> res->Ok_0.origin_id < 12 && res->Ok_0.segment < 5 && res->Ok_0.resolution == resolution,
+{ unimplemented!() }
+
+// float expressions of lonlat_to_cell's sampling spiral (no integer content)
+#[verifier::external_body]
+pub fn f_scale(hilbert_resolution: i32) -> f64 { unimplemented!() }
+#[verifier::external_body]
+pub fn f_sample(lonlat: LonLat, i: i32, n: i32, scale: f64) -> LonLat { unimplemented!() }
+
+pub fn cell_clone(c: &A5Cell) -> (r: A5Cell)
+    ensures r == *c,
+{ A5Cell { origin_id: c.origin_id, segment: c.segment, s: c.s, resolution: c.resolution } }
+
+// std HashSet<u64> of lonlat_to_cell under an assumed contract
+#[verifier::external_body]
+pub struct KeySet { inner: std::collections::HashSet<u64> }
+impl View for KeySet {
+    type V = Set<u64>;
+    uninterp spec fn view(&self) -> Set<u64>;
+}
+impl KeySet {
+    #[verifier::external_body]
+    pub fn new() -> (r: KeySet) ensures r@ == Set::<u64>::empty(), { KeySet { inner: std::collections::HashSet::new() } }
+    #[verifier::external_body]
+    pub fn contains(&self, k: &u64) -> (r: bool) ensures r == self@.contains(*k), { self.inner.contains(k) }
+    #[verifier::external_body]
+    pub fn insert(&mut self, k: u64) -> (r: bool) ensures final(self)@ == old(self)@.insert(k), { self.inner.insert(k) }
+}
+
+// cells.sort_by(|a, b| b.1.partial_cmp(&a.1)..): a permutation (ASSUMED std contract)
+#[verifier::external_body]
+pub fn sort_cells_by_distance(v: &mut Vec<(A5Cell, f64)>)
+    ensures
+        final(v)@.len() == old(v)@.len(),
+        forall|i: int| 0 <= i < final(v)@.len() ==> old(v)@.contains(#[trigger] final(v)@[i]),
+{ v.sort_by(|a, b| b.1.partial_cmp(&a.1).unwrap_or(std::cmp::Ordering::Equal)) }
+
 pub assume_specification [i32::pow] (b: i32, e: u32) -> (r: i32)
     requires ipow(b as int, e as nat) <= i32::MAX, ipow(b as int, e as nat) >= i32::MIN,
     ensures r == ipow(b as int, e as nat);
